@@ -101,11 +101,24 @@ def outer_query(rng, inner):
                 n2, t2 = rng.choice(num)
                 q.targets.append(ir.Target(ir.agg('sum', [ir.col(n2, t2)], t2), 's'))
             kind = 'aggregate'
-    if rng.random() < 0.4:
+    r = rng.random()
+    if r < 0.35:
         ok = [(i, t) for i, t in enumerate(q.targets) if t.expr.type in gen.ORDERABLE]
         if ok:
             i, _ = rng.choice(ok)
             q.order_by = [ir.Key('index', i + 1, rng.choice([None, True]))]
+    elif r < 0.7 and kind == 'plain':
+        # hidden ordering keys over the sub-query's columns (selected or not), plain or inside an expression
+        keyable = [(n, t) for n, t in zip(names, types) if t in gen.ORDERABLE]
+        keys = []
+        for n, t in rng.sample(keyable, min(len(keyable), rng.randint(1, 2))):
+            e = ir.col(n, t)
+            if t in (T_INT, T_DEC) and rng.random() < 0.3:
+                e = ir.bin_('add', e, ir.lit(1, T_INT), t)
+            keys.append(ir.Key('expr', e, rng.choice([None, True])))
+        q.order_by = keys or None
+        if keys:
+            kind = 'plain-hidden-order'
     return q, kind
 
 
